@@ -169,7 +169,7 @@ var c14Referers = []c14Opt{
 	{"host-case", nil, c14Open},
 }
 
-var c14Hosts = []string{"c14.example", "c14.example:8080", "127.0.0.1:9000", "app.internal"}
+var c14Hosts = []string{"c14.example", "c14.example:8080", "127.0.0.1:9000", "app.internal", "[::1]", "[2001:db8::7]", "[::1]:8080", "10.1.2.3"}
 var c14Paths = []string{"/", "/index.html", "/a/b", "/a/b/", "/notebooks/Untitled%20One.ipynb", "/x.y/z_1-2~3", "/a%2Fb/c"}
 
 // URL classes: what the query looks like.
